@@ -68,7 +68,7 @@ TRet ==
   /\ IF cur.fam = "ctl"
      THEN /\ viol' = viol \cup Tag(CtlRetViol(CtlCase(cur), att, [cls |-> E.cls, code |-> E.code], tail))
           /\ ndrift' = ndrift + (IF cur.src # "ref" \/ (Len(att) = cur.pred_att /\ E.cls = cur.pred_cls /\ E.code = cur.pred_code) THEN 0 ELSE 1)
-     ELSE /\ viol' = viol \cup Tag(SpreadRetViol(SpreadCase(cur), reqs, [cls |-> E.cls, code |-> E.code, reported |-> ToSet(E.reported)]))
+     ELSE /\ viol' = viol \cup Tag(SpreadRetViol(SpreadCase(cur), reqs, [cls |-> E.cls, code |-> E.code, reported |-> ToSet(E.reported), filed |-> ToSet(E.filed)]))
           /\ ndrift' = ndrift
   /\ nops' = nops + 1
   /\ UNCHANGED <<cur, att, reqs, tail, nreq>>
